@@ -157,7 +157,7 @@ package kvstore
 //@   flag termination
 //@   requires #inv_weak: k != nil && k.tablesByCoefficient != nil &&
 //@                (forall i int {k.tables[i]} :: 0 <= i && i < len(k.tables) ==> k.tables[i] != nil && k.tables[i].inv() && k.tables[i].allocated == k.tableSize) &&
-//@                (forall i int, j int {k.tables[i], k.tables[j]} :: 0 <= i && i < j && j < len(k.tables) ==> table.sep(k.tables[i], k.tables[j]))
+//@                (forall i int, j int {k.tables[i].hkeys, k.tables[j].hkeys} :: 0 <= i && i < j && j < len(k.tables) ==> table.sep(k.tables[i], k.tables[j]))
 //@   requires #uniq_others [C11]: forall h uint64, i int, j int {k.tables[i].has(h), k.tables[j].has(h)} :: h != hkey && 0 <= i && i < j && j < len(k.tables) ==> !(k.tables[i].has(h) && k.tables[j].has(h))
 //@   ensures  #ok: result == nil
 //@   ensures  #only_removes [C11]: forall h uint64, j int {k.tables[j].has(h)} :: 0 <= j && j < len(k.tables) && k.tables[j].has(h) ==> old(k.tables[j].has(h))
@@ -173,18 +173,18 @@ package kvstore
 //@   ensures  #tables_ok: (forall i int {k.tables[i]} :: 0 <= i && i < len(k.tables) ==> k.tables[i] != nil && k.tables[i].inv() && k.tables[i].allocated == k.tableSize)
 //@   ensures  #states: forall j int {k.tables[j]} :: 0 <= j && j < len(k.tables) ==> k.tables[j].state == old(k.tables[j].state) && k.tables[j].offset == old(k.tables[j].offset)
 //@   modifies every(k.tables[0].garbage), every(k.tables[0].inuse), every(map(k.tables[0].hkeys)), every(k.tables[0].offsetIndex.set)
-//@   loop 0 invariant #cleaned: -2 <= i && i <= len(k.tables) - 2 && len(k.tables) == old(len(k.tables)) &&
-//@                (forall j int {k.tables[j]} :: 0 <= j && j < len(k.tables) ==> k.tables[j] == old(k.tables[j]) && k.tables[j] != nil && k.tables[j].inv() && k.tables[j].allocated == k.tableSize &&
-//@                      k.tables[j].state == old(k.tables[j].state) && k.tables[j].offset == old(k.tables[j].offset)) &&
-//@                (forall j int {k.tables[j]} :: i < j && j < len(k.tables) - 1 ==> !k.tables[j].has(hkey)) &&
-//@                (forall h uint64, a int, b int {k.tables[a].has(h), k.tables[b].has(h)} :: h != hkey && 0 <= a && a < b && b < len(k.tables) ==> !(k.tables[a].has(h) && k.tables[b].has(h))) &&
-//@                (forall h uint64, j int {k.tables[j].has(h)} :: 0 <= j && j < len(k.tables) && h != hkey ==>
-//@                      k.tables[j].has(h) == old(k.tables[j].has(h)) && (k.tables[j].has(h) ==> k.tables[j].off(h) == old(k.tables[j].off(h)))) &&
-//@                (forall h uint64, j int {k.tables[j].has(h)} :: 0 <= j && j < len(k.tables) && (j == len(k.tables) - 1 || j <= i) ==>
-//@                      k.tables[j].has(h) == old(k.tables[j].has(h)) && (k.tables[j].has(h) ==> k.tables[j].off(h) == old(k.tables[j].off(h))))
-//@   loop 0 invariant #maps_distinct: forall a int, b int {k.tables[a], k.tables[b]} :: 0 <= a && a < len(k.tables) && 0 <= b && b < len(k.tables) && a != b ==> k.tables[a].hkeys != k.tables[b].hkeys
-//@   loop 0 invariant #only_removes: forall h uint64, j int {k.tables[j].has(h)} :: 0 <= j && j < len(k.tables) && k.tables[j].has(h) ==> old(k.tables[j].has(h))
-//@   loop 0 invariant #last_kept: len(k.tables) >= 1 ==> forall h uint64 {k.tables[len(k.tables)-1].keyOf(h)} {k.tables[len(k.tables)-1].valOf(h)} {k.tables[len(k.tables)-1].ttlOf(h)} {k.tables[len(k.tables)-1].tsOf(h)} ::
+//@   loop 0 invariant #bounds: -2 <= i && i <= len(k.tables) - 2 && len(k.tables) == old(len(k.tables))
+//@   loop 0 invariant #tables uses(bounds, inv_weak, maps_distinct, frames): forall j int {k.tables[j]} :: 0 <= j && j < len(k.tables) ==> k.tables[j] == old(k.tables[j]) && k.tables[j] != nil && k.tables[j].inv() && k.tables[j].allocated == k.tableSize &&
+//@                      k.tables[j].state == old(k.tables[j].state) && k.tables[j].offset == old(k.tables[j].offset)
+//@   loop 0 invariant #gone uses(bounds, tables): forall j int {k.tables[j]} :: i < j && j < len(k.tables) - 1 ==> !k.tables[j].has(hkey)
+//@   loop 0 invariant #uniq_others uses(bounds, tables): forall h uint64, a int, b int {k.tables[a].has(h), k.tables[b].has(h)} :: h != hkey && 0 <= a && a < b && b < len(k.tables) ==> !(k.tables[a].has(h) && k.tables[b].has(h))
+//@   loop 0 invariant #others uses(bounds, tables): forall h uint64, j int {k.tables[j].has(h)} :: 0 <= j && j < len(k.tables) && h != hkey ==>
+//@                      k.tables[j].has(h) == old(k.tables[j].has(h)) && (k.tables[j].has(h) ==> k.tables[j].off(h) == old(k.tables[j].off(h)))
+//@   loop 0 invariant #untouched uses(bounds, tables, maps_distinct): forall h uint64, j int {k.tables[j].has(h)} :: 0 <= j && j < len(k.tables) && (j == len(k.tables) - 1 || j <= i) ==>
+//@                      k.tables[j].has(h) == old(k.tables[j].has(h)) && (k.tables[j].has(h) ==> k.tables[j].off(h) == old(k.tables[j].off(h)))
+//@   loop 0 invariant #maps_distinct uses(bounds, tables): forall a int, b int {k.tables[a].hkeys, k.tables[b].hkeys} :: 0 <= a && a < len(k.tables) && 0 <= b && b < len(k.tables) && a != b ==> k.tables[a].hkeys != k.tables[b].hkeys
+//@   loop 0 invariant #only_removes uses(bounds, tables): forall h uint64, j int {k.tables[j].has(h)} :: 0 <= j && j < len(k.tables) && k.tables[j].has(h) ==> old(k.tables[j].has(h))
+//@   loop 0 invariant #last_kept uses(bounds, tables, maps_distinct, inv_weak, frames): len(k.tables) >= 1 ==> forall h uint64 {k.tables[len(k.tables)-1].keyOf(h)} {k.tables[len(k.tables)-1].valOf(h)} {k.tables[len(k.tables)-1].ttlOf(h)} {k.tables[len(k.tables)-1].tsOf(h)} ::
 //@                k.tables[len(k.tables)-1].keyOf(h) == old(k.tables[len(k.tables)-1].keyOf(h)) && k.tables[len(k.tables)-1].valOf(h) == old(k.tables[len(k.tables)-1].valOf(h)) &&
 //@                k.tables[len(k.tables)-1].ttlOf(h) == old(k.tables[len(k.tables)-1].ttlOf(h)) && k.tables[len(k.tables)-1].tsOf(h) == old(k.tables[len(k.tables)-1].tsOf(h))
 //@   loop 0 decreases i + 2
